@@ -27,20 +27,23 @@ ChoiAlg(G, sys) ==
     LET basis == BasisOf(sys) nu == NuOf(sys) n == Len(basis) d == DimOf(sys)
     IN SumMats(ConcatAll([a \in 1..n |-> SelectSeq([b \in 1..n |->
           IF RIsZero(G[a][b]) THEN <<>> ELSE CMatScale(RDiv(G[a][b], RI(nu[b])), Kron(basis[a], CMatConj(basis[b])))], LAMBDA m : m # <<>>)]), d * d)
+\* The following are functions of the row-major computational HS matrix hs (computed once per input).
+\* image of E_kl read off column (k,l) of hs
+ImageOf(hs, d, c) == [i \in 1..d |-> [j \in 1..d |-> hs[(i - 1) * d + j][c]]]
 \* Choi matrix, standard definition:  sum_kl G(E_kl) (x) E_kl
-ChoiStd(G, sys) ==
-    LET d == DimOf(sys)
-    IN SumMats([c \in 1..(d * d) |-> Kron(Act(G, Eij(d, IdxRow(d, c)[1], IdxRow(d, c)[2]), sys), Eij(d, IdxRow(d, c)[1], IdxRow(d, c)[2]))], d * d)
+ChoiStd(hs, d) ==
+    SumMats([c \in 1..(d * d) |-> Kron(ImageOf(hs, d, c), Eij(d, IdxRow(d, c)[1], IdxRow(d, c)[2]))], d * d)
 \* reshuffle of the row-major HS matrix:  Choi[(i,k),(j,l)] = HS[(i,j),(k,l)]
-ChoiReshuffle(G, sys) ==
-    LET d == DimOf(sys) hs == HSComp(G, sys, TRUE)
-    IN [r \in 1..(d * d) |-> [c \in 1..(d * d) |->
+ChoiReshuffle(hs, d) ==
+    [r \in 1..(d * d) |-> [c \in 1..(d * d) |->
           LET i == IdxRow(d, r)[1] k == IdxRow(d, r)[2] j == IdxRow(d, c)[1] l == IdxRow(d, c)[2]
           IN hs[(i - 1) * d + j][(k - 1) * d + l]]]
+\* column-major computational form: the same matrix with rows and columns re-indexed
+HSColFromRow(hs, d) ==
+    LET p(k) == (IdxCol(d, k)[1] - 1) * d + IdxCol(d, k)[2] IN [r \in 1..(d * d) |-> [c \in 1..(d * d) |-> hs[p(r)][p(c)]]]
 \* process matrix chi_{(ij),(kl)} = Tr[(E_ij^dagger (x) E_kl^T) HS_cb] = HS_cb[(i,k),(j,l)]
-ProcessMatrix(G, sys) ==
-    LET d == DimOf(sys) hs == HSComp(G, sys, TRUE)
-    IN [r \in 1..(d * d) |-> [c \in 1..(d * d) |->
+ProcessMatrix(hs, d) ==
+    [r \in 1..(d * d) |-> [c \in 1..(d * d) |->
           LET i == IdxRow(d, r)[1] j == IdxRow(d, r)[2] k == IdxRow(d, c)[1] l == IdxRow(d, c)[2]
           IN hs[(i - 1) * d + k][(j - 1) * d + l]]]
 \* inverse: H-coordinate matrix from a Choi matrix:  G_ab = Tr[(H_a (x) conj H_b)^dagger Choi] / nu_a
